@@ -36,7 +36,7 @@ TRUSTED = [
     "the model abstracts routing and analysis of main() into given data (route, verdict, reason); its control flow around the "
     "two sinks (which logging.* calls happen on which route, which exception classes each site catches) is hand-written from "
     "dippy.py / config.py and tied by the correspondence on every scenario",
-    "Python's logging module (Handler.handleError swallows emit errors and prints a traceback when logging.raiseExceptions; "
+    "Python's logging module (Handler.handleError swallows emit errors and prints a traceback only when logging.raiseExceptions - off since 1aa56d9; "
     "lazy basicConfig() to stderr at WARNING when no handler is installed), json.dumps(ensure_ascii) - modelled, validated by the correspondence",
     "POSIX: a single write(2) on an O_APPEND descriptor of a regular file is atomic with respect to other appenders (kernel; "
     "observed by strace and by the concurrent runs, not verified)",
@@ -48,7 +48,7 @@ HOOK = os.path.join(lib.REPO, "bin", "dippy-hook")
 WRAP = os.path.join(os.path.dirname(os.path.abspath(__file__)), "c15_wrap.py")
 DUCK = "\U0001f424 "
 # the except clauses / raiseExceptions setting as regenerated from the working tree (Gen/Tables.v);
-# Props/C15.v C15_tables_tie proves it is the `head` or the `quiet` table the theorems speak about
+# Props/C15.v C15_tables_tie proves it is the `head` table the theorems speak about
 MODEL_TABLE = "current"
 
 BASE_CFG = ['deny zap "NOZAP"', "allow-mcp mcp__srv__get*", 'deny-mcp mcp__srv__del* "NODEL"',
